@@ -1155,6 +1155,9 @@ type inviteSpec struct {
 	inviter  string  // invite/@from ("" = absent)
 	reason   string
 	password string
+	// an empty reason / password is sent as an empty element instead of being
+	// left out (the room relays what the inviter's client sent)
+	emptyEls bool
 	cont     bool
 	thread   string
 	typeAttr string // "", "normal"
@@ -1178,6 +1181,8 @@ func (e *env) invite(s inviteSpec) bool {
 	inv := xt.El(muc.NSUser, "invite", iattrs)
 	if s.reason != "" {
 		inv.Children = append(inv.Children, xt.El(muc.NSUser, "reason", nil, xt.Tx(s.reason)))
+	} else if s.emptyEls {
+		inv.Children = append(inv.Children, xt.El(muc.NSUser, "reason", nil))
 	}
 	if s.cont {
 		var ca []xml.Attr
@@ -1189,6 +1194,8 @@ func (e *env) invite(s inviteSpec) bool {
 	x := xt.El(muc.NSUser, "x", nil, inv)
 	if s.password != "" {
 		x.Children = append(x.Children, xt.El(muc.NSUser, "password", nil, xt.Tx(s.password)))
+	} else if s.emptyEls {
+		x.Children = append(x.Children, xt.El(muc.NSUser, "password", nil))
 	}
 	body := xt.El(nsClient, "body", nil, xt.Tx("You have been invited"))
 	legacy := xt.El(muc.NSConf, "x", []xml.Attr{xt.A("jid", s.from.String())})
@@ -1232,6 +1239,9 @@ func (e *env) invite(s inviteSpec) bool {
 	e.logf("room %s sends: mediated invitation to=%q inviter=%q reason=%q password=%q continue=%v thread=%q type=%q layout=%d",
 		s.from, s.to, s.inviter, s.reason, s.password, s.cont, s.thread, s.typeAttr, s.layout)
 	e.can("invite from=%s to=%q inviter=%q reason=%q pw=%q cont=%v thread=%q type=%q l=%d id=%d", s.from, s.to, s.inviter, s.reason, s.password, s.cont, s.thread, s.typeAttr, s.layout, s.idKind)
+	if s.emptyEls {
+		e.can("empty-elements")
+	}
 	e.feed(xt.El(nsClient, "message", attrs, kids...))
 	e.wantInvites++
 	if !e.sync() {
